@@ -7,6 +7,8 @@ from ..runner import Stream
 ID = "C12"
 AREAS = ["help"]
 RULE = ("random command trees (depth <= 3) mixing short-only / long-only / short+long flags, Count flags, options with "
+        "env variables (set / unset / empty, hide_env, hide_env_values), default values (with whitespace, quotes, backslashes; "
+        "hide_default_value), visible and hidden aliases / short aliases, global flags and options inherited by the subcommand levels, "
         "0..2 value names and ranges, positionals (required prefix, optional tail, multi-valued last), help / long_help "
         "of 0..14 words, custom headings, explicit (colliding) display orders, hide / hide_short_help / hide_long_help / "
         "next_line_help, possible values with help and hidden values, hidden subcommands, flag subcommands, the four "
@@ -22,7 +24,8 @@ TRUSTED = [
 ]
 ASSUMPTIONS = [
     "64-bit usize; plain styles; default help template; no term-size detection (term_width is set explicitly)",
-    "domain of the model: no argument groups / requires / global args / defaults / env / visible aliases / flatten_help (the generators stay inside it)",
+    "domain of the model: no argument groups / requires / next_help_heading / subcommand_help_heading / subcommand visible aliases / flatten_help (the generators stay inside it); env, defaults, (short) aliases, possible values in spec_vals and global arguments are modelled",
+    "the help-level theorems on the parser model (C12_help_flag_*_level) quantify over chains of subcommand names/aliases directly followed by the help flag (class help_chain); their hypothesis long_help_at/short_help_at (the level's --help / -h is a value-less Help-action flag) is checked by computation on the example, not derived from the build",
     "C12_padding_safe assumes every rendered left column is at most 65 000 columns wide (observation N: core::fmt limits run-time widths to u16 on rustc >= 1.87)",
     "names are ASCII in generated cases (columns = characters = bytes)",
 ]
@@ -951,16 +954,26 @@ def classify_known(stream, case, impl, failure):
     return None
 
 
-TECHNIQUE = "Coq proof (column arithmetic, visibility, section assembly of the help writer) + extracted-model/implementation correspondence"
+TECHNIQUE = ("Coq proof (column arithmetic, visibility, section assembly, spec_vals non-interference of the help writer; help-flag "
+             "dispatch along a subcommand chain on the parser model) + extracted-model/implementation correspondence")
 LEVEL_TEXT = ("Machine-checked theorems (Coq 8.16, closed under the global context) about a model of help_template.rs / "
               "usage.rs that mirrors the Rust functions one by one: every unsigned subtraction and run-time format width in "
               "write_args / align_to_about / help / subcmd succeeds for every command, every width and every display-width "
               "function, the padding is bounded independently of the width, every argument and subcommand that is visible in "
               "the rendered mode is a row of its section, hidden optional arguments / hidden subcommands / hidden possible "
-              "values contribute no row and no usage piece, and the help error raised at a level renders that level.  The "
+              "values contribute no row and no usage piece, and the help error raised at a level renders that level.  Round 2: "
+              "spec_vals is modelled in full (env, defaults, aliases, short aliases, quoted possible values) and compared token by token; "
+              "non-interference: two commands that differ only in hidden possible values, invisible aliases, hidden env / env values / "
+              "defaults render the same screen in every mode at every width; every row carries exactly spec_vals of its argument and every "
+              "visible possible value is listed; the usage line mentions every required positional; global arguments reach every "
+              "subcommand level; and on the parser model try_get_matches_from on `bin name_1 .. name_k (--help|-h) ..` (names/aliases of "
+              "nested subcommands, class help_chain) returns the DisplayHelp error of the level at the end of the chain.  The "
               "model is tied to clap_builder on every run by rendering generated command trees with the real crate at widths "
               "0..200 (debug and release) and comparing sections, rows, help columns and usage tokens with the extracted model; "
               "an independent python oracle written from the property text checks the rendered text itself.")
 LEVEL_NOTE = ("Trusted: Coq kernel, extraction, OCaml driver, Rust harness, generators; core::fmt, BTreeMap, f32 comparison "
               "(swept each run), textwrap (C20) and unicode-width are modelled or abstract; the model's domain excludes groups, "
-              "requires, global args, defaults/env/aliases in help, flatten_help, custom templates.")
+              "requires (usage forms <a|b>), next_help_heading / subcommand_help_heading, subcommand aliases in help, flatten_help, "
+              "custom templates, non-ASCII names.  Differential / oracle only: byte-exact layout and wrapped text, usage forms under "
+              "subcommand_negates_reqs / args_conflicts_with_subcommands, help chains with flags or values between the names.  "
+              "Observation (not a defect fix): a default value naming a hidden possible value is printed in [default: ..].")
